@@ -48,6 +48,40 @@ pub fn shape_programs() -> Vec<(&'static str, Prog)> {
   ]
 }
 
+/// Template family "transitive generator/consumer": Use (T0) -> Mid (T1) -> Gen (T2); Gen writes r0 (from source r1),
+/// Use reads r0. The properties speak of TRANSITIVE requires between reader and generator; enumeration by size does not
+/// reach three tasks with five to seven statements, so every combination of a few variants per role is taken instead.
+pub fn transitive_family() -> Vec<Prog> {
+  use Op::*;
+  let e = RC::Exact;
+  let a = OC::PieAlways;
+  let q = OC::Equals;
+  let gens: Vec<Vec<Stmt>> = vec![
+    vec![st(Write(0, Src::One, e))],
+    vec![st(Read(1, e)), st(Write(0, Src::Acc, e))],
+    vec![st(Read(1, e)), sg(1, Write(0, Src::One, e))],
+  ];
+  let mids: Vec<Vec<Stmt>> = vec![
+    vec![st(Req(2, a))],
+    vec![st(Req(2, q))],
+    vec![st(Read(1, e)), st(Req(2, a))],
+    vec![st(Read(1, e)), sg(1, Req(2, a))],
+  ];
+  let uses: Vec<Vec<Stmt>> = vec![
+    vec![st(Req(1, a)), st(Read(0, e))],
+    vec![st(Req(1, q)), st(Read(0, e))],
+    vec![st(Read(1, e)), st(Req(1, a)), st(Read(0, e))],
+    vec![st(Read(1, e)), sg(1, Req(1, a)), sg(1, Read(0, e))],
+    vec![st(Read(0, e))],
+    vec![st(Req(2, a)), st(Read(0, e))],
+  ];
+  let mut out = Vec::new();
+  for u in &uses { for m in &mids { for g in &gens {
+    out.push(Prog { n_res: 2, bodies: vec![u.clone(), m.clone(), g.clone()] });
+  } } }
+  out
+}
+
 #[derive(Clone, Copy, PartialEq, Eq, Debug)]
 pub enum Slice { Wf, Viol, All, WfOrViol, WfOrPanic, WfOrMulti, WfOrViolOrPanic, WfOrViolOrSelfConflict }
 
@@ -72,7 +106,9 @@ pub fn programs_for(cfgs: &[EnumCfg], slice: Slice, with_shapes: bool, extra_fil
   let mut out: Vec<(Prog, Class)> = Vec::new();
   let mut seen = std::collections::BTreeSet::new();
   if with_shapes {
-    for (_, p) in shape_programs() {
+    let mut named: Vec<Prog> = shape_programs().into_iter().map(|(_, p)| p).collect();
+    named.extend(transitive_family().into_iter().map(|p| crate::enumerate::canonical(&p)));
+    for p in named {
       let c = classify(&p);
       let ok = if p.bodies.iter().flatten().any(|s| s.op == Op::Panic) && slice != Slice::WfOrPanic && slice != Slice::WfOrViolOrPanic { false } else { in_slice(&c, slice) };
       if ok && extra_filter(&p) && seen.insert(p.clone()) { out.push((p, c)); }
